@@ -394,8 +394,13 @@ class TCPClient(_TCPPooling, interfaces.TokenInterface):
         self.log: Optional[Logger] = None
         self.loop: Optional[asyncio.AbstractEventLoop] = None
         self.credentials = None
+        #: Connections that are being established; shutdown cancels them
+        self._connecting: Set[asyncio.Task] = set()
 
     async def _spawn_protocol(self, message):
+        if self._tokenmanager is None:
+            raise error.LibraryShutdown()
+
         if message.unresolved_remote is None:
             host = message.opt.uri_host
             port = message.opt.uri_port or self._default_port
@@ -410,19 +415,39 @@ class TCPClient(_TCPPooling, interfaces.TokenInterface):
         if (host, port) in self._pool:
             return self._pool[(host, port)]
 
-        try:
-            _, protocol = await self.loop.create_connection(
+        # This runs in a task of its own so that shutdown can cancel it: a peer
+        # may take arbitrarily long to complete (or fail) the connection setup.
+        connecting = self.loop.create_task(
+            self.loop.create_connection(
                 lambda: TcpConnection(self, self.log, self.loop, is_server=False),
                 host,
                 port,
                 ssl=self._ssl_context_factory(message.unresolved_remote),
-            )
+            ),
+            name="Connecting to %s" % util.hostportjoin(host, port),
+        )
+        self._connecting.add(connecting)
+        try:
+            _, protocol = await connecting
+        except asyncio.CancelledError:
+            if self._tokenmanager is None and not asyncio.current_task().cancelling():
+                # It was the shutdown that cancelled the connection setup
+                raise error.LibraryShutdown() from None
+            raise
         except socket.gaierror as e:
             raise error.ResolutionError(
                 "No address information found for requests to %r" % host
             ) from e
         except OSError as e:
             raise error.NetworkError("Connection failed to %r" % host) from e
+        finally:
+            self._connecting.discard(connecting)
+
+        if self._tokenmanager is None:
+            # The connection came up just when shutdown ran: it was in no pool
+            # then, so nobody has released it or ever will.
+            protocol._transport.abort()
+            raise error.LibraryShutdown()
 
         self._pool[(host, port)] = protocol
 
@@ -474,6 +499,9 @@ class TCPClient(_TCPPooling, interfaces.TokenInterface):
     async def shutdown(self):
         self.log.debug("Shutting down any outgoing connections on on %r", self)
         self._tokenmanager = None
+
+        for connecting in list(self._connecting):
+            connecting.cancel()
 
         shutdowns = [
             asyncio.create_task(
